@@ -164,7 +164,15 @@ pub fn call_slot(rng: &mut Rng, b: Builder, slot: usize, small: bool) -> (Builde
         }
         _ => {
             let n = if small { 3 } else { rng.below(20) as usize };
-            let t = new_boxed::<DynSizedStructure<TagHeader>>(TagHeader::new(TagType::Custom(0x1000 + rng.below(16) as u32), 0), &[&rng.bytes(n)]);
+            // custom type ids: the first unspecified ones, the last one, random others
+            let id = match rng.below(6) {
+                0 => 22,
+                1 => 23 + rng.below(3) as u32,
+                2 => u32::MAX - rng.below(2) as u32,
+                3 => 0x1000 + rng.below(16) as u32,
+                _ => 22 + rng.below(u32::MAX as u64 - 22) as u32,
+            };
+            let t = new_boxed::<DynSizedStructure<TagHeader>>(TagHeader::new(TagType::Custom(id), 0), &[&rng.bytes(n)]);
             let i = image(&*t);
             (b.add_custom_tag(t), i)
         }
